@@ -47,6 +47,11 @@ CLAIMED = {
    text="For boundaries of all primitives (slanted, clockwise, parameter-dependent, 1-D..3-D) and of TLC-generated nested unions/cuts/intersections, normal() is recorded at the points of the boundary's own random and grid samplers; TLC checks on the exact denotation that each normal is finite, of unit length and outward (a step along it leaves the set, a step against it enters), independently of how the library computes normals.",
    note="Trusted: TLC, vh/universe.py. Steps of 8/4/2 fine units (1/256); samples within 16/256 of a second primitive's boundary or at a corner of the primitive itself (ring test) are skipped and counted; normals of translated/rotated boundaries are not part of the API (no normal method).",
    technique="TLC trace validation of recorded normals against the TLA+ denotation (outward step test)", ref="5 C06"),
+ "C11": dict(
+   level="model_checking",
+   text="SamplingLaws.tla turns each named law into an acceptance region on integer counts evaluated by TLC: uniform = binomial region (z=6) around cell masses that TLC computes from the denotation (16x16 sub-lattice per unit box, explicit slack for cut boxes; exact length shares for polygon edges, quadrants for circles), grid = every box's share within a discretisation bound, Gaussian = cell probabilities from a Phi table on boxes, Latin hypercube = slab indices form a permutation on every axis. TLC picks law x expression x partition; the real samplers draw 400..16384 points per run.",
+   note="Statistical decision: z=6 (false alarms < 1e-8 per cell); biases below a few percent of a cell mass are invisible at these N (stated in DESIGN 5 C11/9). Trusted: TLC, box binning of the driver (a quantisation), vh/universe.py.",
+   technique="TLC-evaluated acceptance regions (reference measure from the TLA+ denotation) on recorded sample counts", ref="5 C11"),
 }
 PENDING_REASON = "check not built yet in this round (design in DESIGN.md section 5); not claimed"
 
